@@ -65,6 +65,10 @@ def run_patch(name, patch, props, jobs, lane=0):
     src = os.environ.get("VERIF_REPO", "/repo")
     subprocess.run(["rsync", "-a", "--delete", "--exclude", "/target", "--exclude", ".git", src + "/", work + "/"], check=True)
     touched = _touched(patch)
+    prevf = base + "/prev.json"
+    if lane not in _LANE_PREV and os.path.exists(prevf):
+        _LANE_PREV[lane] = json.load(open(prevf))       # the last patch of an earlier process on this lane
+    json.dump(touched, open(prevf, "w"))
     for f in set(_LANE_PREV.get(lane, [])) | set(touched):
         fp = os.path.join(work, f)
         if os.path.exists(fp):
